@@ -81,6 +81,22 @@ func c09Mutants(tx *pb.Transaction, spec *hx.TxSpec, resp *protos.InvokeResponse
 		m.TxOutputsExt[persistent[len(persistent)-1]] = proto.Clone(m.TxOutputsExt[persistent[0]]).(*protos.TxOutputExt)
 		add("write-replaced-by-duplicate", m)
 	}
+	// the read entry of a written key moved across the bucket / key boundary: bucket+key spells the same string, but
+	// it is another key (never written, so its empty version is "current"); the written key is no longer read
+	for i, in := range tx.TxInputsExt {
+		written := false
+		for _, o := range tx.TxOutputsExt {
+			written = written || (o.Bucket == in.Bucket && bytes.Equal(o.Key, in.Key))
+		}
+		if !written || len(in.Bucket) < 2 || in.Bucket == hx.TransientBucket {
+			continue
+		}
+		m := c09Clone(tx)
+		cut := len(in.Bucket) - 1
+		m.TxInputsExt[i] = &protos.TxInputExt{Bucket: in.Bucket[:cut], Key: append([]byte(in.Bucket[cut:]), in.Key...)}
+		add("read-entry-moved-across-the-bucket-boundary", m)
+		break
+	}
 	{
 		m := c09Clone(tx)
 		m.TxInputsExt = append(m.TxInputsExt, &protos.TxInputExt{Bucket: hx.VerifContract, Key: []byte("zz")})
